@@ -59,7 +59,7 @@ func Verif_C13_concurrent_allocation() {
 	wk := verifWorkceptor(dir)
 	verifapi.Assert("register", wk.w.RegisterWorker("cmd", verifCmdCfg().NewWorker, false) == nil)
 	verifapi.FixRandom("cccccccc", "cccccccc", "dddddddd", "eeeeeeee")
-	verifapi.ExploreSchedules(2)
+	verifapi.ExploreSchedules(2 + verifapi.Tier())
 	res := make(chan WorkUnit, 2)
 	for i := 0; i < 2; i++ {
 		go func() {
